@@ -120,6 +120,15 @@ func (m *Muxer) AddElementaryStream(es PMTElementaryStream) error {
 			}
 		}
 	} else {
+		for {
+			if m.nextPID < startPID || m.nextPID >= PIDNull {
+				m.nextPID = startPID
+			}
+			if _, exists := m.esContexts[uint32(m.nextPID)]; !exists && m.nextPID != pmtStartPID {
+				break
+			}
+			m.nextPID++
+		}
 		es.ElementaryPID = m.nextPID
 		m.nextPID++
 	}
